@@ -17,7 +17,7 @@ LAYERS = ["lexparse", "checks", "format"]
 
 def run(ctx, res):
     P = ctx.P
-    reach, inv = PI.run(ctx, res, LAYERS, floor_fns=560, floor_sites=300)
+    reach, inv = PI.run(ctx, res, LAYERS, floor_fns=410, floor_sites=200)
     # ---- PARSE-PROGRESS
     ps = PP.sites(P, reach)
     res.floor("PARSE-PROGRESS", "forward-progress assertions in the parser", len(ps), 11)
